@@ -32,10 +32,10 @@ QUICK_ARCHS = ["zen1", "zen2", "spr", "hsw", "tx2", "n1", "v2", "a64fx"]
 def floors(tier):
     if tier == "quick":
         return {"evaluations": 700, "distinct_nontrivial": 150, "cfg:uniform": 700, "cfg:once": 700, "cfg:twice": 700,
-                "kind:synth": 300, "kind:shipped": 100, "kind:cli": 20, "kind:clisynth": 40, "instr_checked": 10000, "alt_forms_seen": 20,
+                "kind:synth": 300, "kind:shipped": 100, "kind:cli": 20, "kind:clisynth": 40, "dict_checked": 100, "instr_checked": 10000, "alt_forms_seen": 20,
                 "zero_tp_lines_seen": 20, "multichar_port_models": 10, "totals_checked": 2000}
     return {"evaluations": 9000, "distinct_nontrivial": 2000, "cfg:uniform": 9000, "cfg:once": 9000, "cfg:twice": 9000,
-            "kind:synth": 5000, "kind:shipped": 1500, "kind:cli": 150, "kind:clisynth": 800, "instr_checked": 100000, "alt_forms_seen": 200,
+            "kind:synth": 5000, "kind:shipped": 1500, "kind:cli": 150, "kind:clisynth": 800, "dict_checked": 1500, "instr_checked": 100000, "alt_forms_seen": 200,
             "zero_tp_lines_seen": 200, "multichar_port_models": 100, "totals_checked": 20000}
 
 
@@ -345,9 +345,10 @@ def run_cli(spec, R, mon):
 
 def cli_case(arch, f, fixed, mm, ports, tables, R, mon, case):
     mon.take()
+    yml = os.path.join(os.path.dirname(f) if case.get("text") else os.environ.get("VERIF_HOME", "/tmp"), "c01-%d.yml" % os.getpid())
     try:
         with time_limit(120):
-            W.run_cli(["--arch", arch, "--ignore-unknown", "--lcd-timeout", "0"] + (["--fixed"] if fixed else []) + [f])
+            W.run_cli(["--arch", arch, "--ignore-unknown", "--lcd-timeout", "0", "--yaml-out", yml] + (["--fixed"] if fixed else []) + [f])
     except CaseTimeout:
         R.inconclusive += 1
         R.case()
@@ -372,8 +373,42 @@ def cli_case(arch, f, fixed, mm, ports, tables, R, mon, case):
         evs = {"uniform": ev[0], "once": ev[1], "twice": ev[-1]}
     exp = expected_from_observation(mm, evs, R, case)
     changed = judge_kernel(ports, evs, exp, tables, R, case)
+    judge_dict(ports, ev[-1], yml, R, case)
     R.case(digest([arch, case.get("text") or os.path.basename(f), fixed]), nontrivial=changed)
     R.count("kind:" + case["kind"])
+
+
+def judge_dict(ports, last_event, yml, R, case):
+    """The machine-readable output carries exactly the per-instruction pressure and the totals the scheduler left behind."""
+    from ruamel.yaml import YAML
+
+    try:
+        with open(yml) as fh:
+            d = YAML(typ="unsafe", pure=True).load(fh)
+    except Exception as e:  # noqa
+        R.count("yaml_not_loadable")
+        return
+    finally:
+        try:
+            os.unlink(yml)
+        except OSError:
+            pass
+    kind, snaps, reported = last_event
+    R.count("dict_checked")
+    if list(d["Target"]["Ports"]) != list(ports):
+        R.violation("dict/ports", "dict lists ports %s, model has %s" % (d["Target"]["Ports"], ports), case)
+        return
+    if len(d["Kernel"]) != len(snaps):
+        R.violation("dict/kernel-length", "dict has %d lines, %d were scheduled" % (len(d["Kernel"]), len(snaps)), case)
+        return
+    for i, (row, sn) in enumerate(zip(d["Kernel"], snaps)):
+        got = [float(row["PortPressure"][p]) for p in ports]
+        if sn["pressure"] is not None and max(abs(a - b) for a, b in zip(got, sn["pressure"])) > 1e-9:
+            R.violation("dict/per-instruction-pressure", "line %d: dict pressure %s, scheduler left %s" % (i + 1, got, sn["pressure"]), case)
+            return
+    tot = [float(d["Summary"]["PortPressure"][p]) for p in ports]
+    if reported and max(abs(a - b) for a, b in zip(tot, reported)) > 1e-9:
+        R.violation("dict/summary-pressure", "dict totals %s, get_throughput_sum %s" % (tot, reported), case)
 
 
 def run_shard(spec, R):
